@@ -24,6 +24,13 @@ pub enum HolderOp {
         #[serde(with = "crate::exact::map")]
         selection: Map<String, Value>,
     },
+    /// key binding requested with an algorithm that does not fit the holder key (e.g. "ES384" or
+    /// an unknown name with a P-256 key): must be an error, and must not influence later calls
+    BadKbAlg {
+        #[serde(with = "crate::exact::map")]
+        selection: Map<String, Value>,
+        alg: String,
+    },
     /// nonce / aud / key not all present or all absent: must be an error
     InconsistentKb {
         #[serde(with = "crate::exact::map")]
@@ -205,6 +212,17 @@ fn check_holder(issue: &IssueSpec, ops: &[HolderOp], st: &mut Stats) -> Verdict 
                     Out::Panic(p) => return Err(Failure::new(panic_sig("create_presentation", &p), ctx(format!("panicked: {}", p)))),
                     Out::Err(_) => had_failure = true,
                     Out::Ok(p) => return Err(Failure::new("history:holder:bad-call-succeeded", ctx(format!("selecting a claim that does not exist must fail, got {}", sut::clip(&p, 500))))),
+                }
+            }
+            HolderOp::BadKbAlg { selection, alg } => {
+                st.label("holder:failing_op");
+                st.label("holder:failing_op:bad_kb_alg");
+                let hk = if issue.holder.is_some() { issue.holder } else { HolderKey::Ec };
+                let args = RawPresentArgs { nonce: Some("n".into()), aud: Some("a".into()), key: hk, sign_alg: Some(alg.clone()) };
+                match sut::present_raw(&mut holder, selection, &args) {
+                    Out::Panic(p) => return Err(Failure::new(panic_sig("create_presentation", &p), ctx(format!("panicked: {}", p)))),
+                    Out::Err(_) => had_failure = true,
+                    Out::Ok(p) => return Err(Failure::new("history:holder:bad-call-succeeded", ctx(format!("a key-binding algorithm that does not fit the holder key must fail, got {}", sut::clip(&p, 500))))),
                 }
             }
             HolderOp::InconsistentKb { selection, nonce, aud, key } => {
